@@ -11,6 +11,9 @@
    timestamp read.  One operation = one label = one atomic step; the engine's behaviour enters as
    the environment outcome carried by the label.
 
+   Line numbers refer to /repo at 17d91b5; commit 8ffcae3 has since put record, lastVal and tso under
+   an RWMutex (never held across an engine call) without changing any of the behaviour modelled here.
+
    Definitions only; the proofs are in Proofs/Election.v. *)
 From KB Require Export Base.Cases.
 From Coq Require Import Ascii String.
